@@ -83,4 +83,25 @@ def FTask.isComplete (t : FTask) : Bool := t.completed.contains []
 
 def FTask.root (t : FTask) : Option Node := t.get []
 
+/-! ## `Parser` over flat tasks: same routing, handing back and discarding as `PM.Parser` -/
+
+abbrev FParser := List (String × FTask)
+
+def FParser.add (p : FParser) (m : PMsg) : Except Err (List (String × FTask) × FParser) := do
+  let cur := (p.lookup m.uuid).getD {}
+  let t ← cur.add m
+  let rest := p.filter (fun e => e.1 != m.uuid)
+  if t.isComplete then pure ([(m.uuid, t)], rest) else pure ([], (m.uuid, t) :: rest)
+
+def FParser.feed : FParser → List PMsg → Except Err (List (String × FTask) × FParser)
+  | p, [] => pure ([], p)
+  | p, m :: ms => do
+    let (done, p') ← p.add m
+    let (done', p'') ← FParser.feed p' ms
+    pure (done ++ done', p'')
+
+def fparseStream (ms : List PMsg) : Except Err (List (String × FTask)) := do
+  let (done, p) ← FParser.feed [] ms
+  pure (done ++ p)
+
 end PM
